@@ -252,7 +252,15 @@ def install(I):
         return d
 
     reg("dict", b_dict)
-    reg("set", lambda I, a, k: set(I.concrete_key(x) for x in I.iterate(a[0])) if a else set())
+    def b_set(I, a, k):
+        if not a:
+            return set()
+        if isinstance(a[0], SymArr) and a[0].items is None:
+            from .heap import SymIntSet
+            return SymIntSet(a[0])
+        return set(I.concrete_key(x) for x in I.iterate(a[0]))
+
+    reg("set", b_set)
     reg("frozenset", lambda I, a, k: frozenset(I.concrete_key(x) for x in I.iterate(a[0])) if a else frozenset())
 
     def b_sorted(I, a, k):
